@@ -39,6 +39,7 @@ type Schema struct {
 	Enums    []E
 	Imports  []string // e.g. google/protobuf/timestamp.proto
 	Only     []string // runtimes the schema applies to (empty = all)
+	FileExt  []F      // extensions declared at file level: Card carries "ext:<Extendee>"
 }
 
 // AppliesTo reports whether the schema is meaningful for the runtime.
@@ -101,6 +102,11 @@ func (s *Schema) FileDescriptor(fileName, pkg, goPkg string) *descriptorpb.FileD
 	}
 	for i := range s.Messages {
 		fd.MessageType = append(fd.MessageType, s.message(&s.Messages[i], "."+pkg, pkg))
+	}
+	for _, x := range s.FileExt {
+		t, tn := s.typeRef(x.Kind, pkg)
+		fd.Extension = append(fd.Extension, &descriptorpb.FieldDescriptorProto{Name: proto.String(x.Name), Number: proto.Int32(x.Num), Type: t.Enum(), TypeName: tn,
+			Label: descriptorpb.FieldDescriptorProto_LABEL_OPTIONAL.Enum(), Extendee: proto.String("." + pkg + "." + strings.TrimPrefix(x.Card, "ext:")), JsonName: proto.String(lowerCamel(x.Name))})
 	}
 	return fd
 }
